@@ -225,7 +225,7 @@ class WritableVersion(dns.zone.WritableVersion):
         if self.zone.relativize:
             return name == dns.name.empty
         else:
-            return name == self.zone.origin
+            return name == self.origin
 
     def _maybe_cow_with_name(
         self, name: dns.name.Name
